@@ -187,6 +187,55 @@ def _trafo(rng, pp, net, hv, lv, vn_hv, vn_lv, sn):
         parallel=rng.choice([1, 1, 2]), df=1., **kw)
 
 
+FAULTS = ("overload", "zero_line", "xward_zero_x", "tiny_trafo_vk", "impedance_zero", "open_all_switches",
+          "huge_capacitance", "no_ext_grid", "swapped_trafo_voltages", "extreme_load_q", "disconnected_bus")
+
+
+def inject_fault(rng, net, fault=None):
+    """make the net 'sick' in one of the ways the diagnostic tool / failure paths are written for; returns name"""
+    import pandapower as pp
+    fault = fault or rng.choice(FAULTS)
+    if fault == "overload":
+        net.load["p_mw"] = net.load.p_mw * 400
+    elif fault == "zero_line" and len(net.line):
+        i = rng.choice(list(net.line.index))
+        net.line.loc[i, ["r_ohm_per_km", "x_ohm_per_km"]] = 0.0
+    elif fault == "xward_zero_x":
+        if len(net.xward) == 0:
+            b = rng.choice(list(net.bus.index[net.bus.vn_kv == 20.][1:]))
+            pp.create_xward(net, b, 0.1, 0.05, 0.1, 0.0, r_ohm=0.5, x_ohm=0.0, vm_pu=1.0)
+        else:
+            net.xward.loc[net.xward.index[0], "x_ohm"] = 0.0
+        net.load["p_mw"] = net.load.p_mw * 300          # and make the power flow fail
+    elif fault == "tiny_trafo_vk" and len(net.trafo):
+        i = rng.choice(list(net.trafo.index))
+        net.trafo.loc[i, ["vk_percent", "vkr_percent"]] = [1e-7, 1e-8]
+        if len(net.line):
+            net.line.loc[net.line.index[0], ["r_ohm_per_km", "x_ohm_per_km"]] = 0.0
+        net.load["p_mw"] = net.load.p_mw * 300
+    elif fault == "impedance_zero":
+        mv = list(net.bus.index[net.bus.vn_kv == 20.])
+        if len(mv) >= 2:
+            pp.create_impedance(net, mv[0], mv[-1], rft_pu=0.0, xft_pu=0.0, sn_mva=10.)
+            net.load["p_mw"] = net.load.p_mw * 300
+    elif fault == "open_all_switches" and len(net.switch):
+        net.switch["closed"] = False
+    elif fault == "huge_capacitance" and len(net.line):
+        net.line["c_nf_per_km"] = net.line.c_nf_per_km * 1e5 + 1e6
+    elif fault == "no_ext_grid":
+        net.ext_grid["in_service"] = False
+    elif fault == "swapped_trafo_voltages" and len(net.trafo):
+        i = net.trafo.index[0]
+        hv, lv = net.trafo.at[i, "vn_hv_kv"], net.trafo.at[i, "vn_lv_kv"]
+        net.trafo.loc[i, ["vn_hv_kv", "vn_lv_kv"]] = [lv, hv]
+    elif fault == "extreme_load_q":
+        net.load["q_mvar"] = net.load.q_mvar * 500 + 50
+    elif fault == "disconnected_bus":
+        b = pp.create_bus(net, 20.)
+        pp.create_load(net, b, 0.3, 0.1)
+    return fault
+
+
 def run_ok(net, **kw):
     """runpp returning True when converged (LoadflowNotConverged -> False); other exceptions propagate"""
     import pandapower as pp
